@@ -442,3 +442,29 @@ Example pca_projector_example :
   let P2 := fun i j : nat => 1%Z in
   mmul Z 0%Z Z.add Z.mul 2 P2 P2 0 1 = 2%Z /\ tr Z P2 0 1 = P2 0 1.
 Proof. vm_compute. split; reflexivity. Qed.
+
+(* ====================================================================== *)
+(* machine-integer findings in labs/mask.py (known_findings.json)          *)
+(* ====================================================================== *)
+From NV.C19 Require Import MaskFindings.
+
+(* (18) FINDING: compute_mask_sessions sums the session masks in int8: with 128 sessions a voxel
+   contained in every mask has the wrapped count -128 and is dropped, although 128 > threshold*n. *)
+Theorem sessions_vote_count_refuted :
+  exists votes : list Z,
+    Forall (fun v => v = 1%Z) votes /\ length votes = 128%nat /\
+    votes_exact votes = 128%Z /\ votes_int8 votes = (-128)%Z /\
+    intersect_sel (inject_Z 64) [votes_exact votes] = [true] /\
+    intersect_sel (inject_Z 64) [votes_int8 votes] = [false].
+Proof. exact sessions_votes_refuted_proof. Qed.
+Print Assumptions sessions_vote_count_refuted.
+
+(* (19) FINDING: compute_mask on a uint8 volume takes the mid-point sum in uint8: for the gap
+   190 -> 199 the threshold becomes 133/2 (below both values) instead of 389/2. *)
+Theorem compute_mask_uint8_midpoint_refuted :
+  exists u v : Z, (0 <= u <= 255)%Z /\ (0 <= v <= 255)%Z /\ (u < v)%Z /\
+    Qle_bool (midpoint_exact u v) (inject_Z u) = false /\ Qle_bool (midpoint_exact u v) (inject_Z v) = true /\
+    Qle_bool (midpoint_uint8 u v) (inject_Z u) = true /\
+    mask_threshold [inject_Z 190; inject_Z 199; inject_Z 190; inject_Z 199] (1 # 4) (3 # 4) false = Some (midpoint_exact u v).
+Proof. exact midpoint_uint8_refuted_proof. Qed.
+Print Assumptions compute_mask_uint8_midpoint_refuted.
